@@ -229,9 +229,32 @@ fn j_json(j: &J) -> Value {
         J::Obj(p) => json!({"obj": p.iter().map(|(k, v)| json!([k.0, k.1, j_json(v)])).collect::<Vec<_>>()}),
     }
 }
+/// deep values: kind 0 arrays, 1 objects, 2 alternating, 3 arrays with a sibling before and after
+pub fn spine(kind: usize, depth: usize) -> J {
+    let mut j = J::Num("1");
+    for lvl in (0..depth).rev() {
+        let k: (String, String) = ("k".into(), "k".into());
+        j = match kind {
+            0 => J::Arr(vec![j]),
+            1 => J::Obj(vec![(k, j)]),
+            2 => {
+                if lvl % 2 == 0 {
+                    J::Arr(vec![j])
+                } else {
+                    J::Obj(vec![(k, j)])
+                }
+            }
+            _ => J::Arr(vec![J::Num("0"), j, J::Str("a".into(), "a".into())]),
+        };
+    }
+    j
+}
 fn j_parse(v: &Value) -> Result<J, String> {
     if v.is_null() {
         return Ok(J::Null);
+    }
+    if let Some(sp) = v.get("spine") {
+        return Ok(spine(sp[0].as_u64().unwrap_or(0) as usize, sp[1].as_u64().unwrap_or(1) as usize));
     }
     if let Some(b) = v.get("bool") {
         return Ok(J::Bool(b.as_bool().unwrap_or(false)));
@@ -322,7 +345,7 @@ pub fn replay(case: &Value) -> Result<Acc, String> {
 
 pub fn check(tier: Tier) -> i32 {
     let mut rep = Report::new("C13", tier, "model_checking");
-    rep.rule = "abstract values: every JSON value of <= s nodes over leaves {null, true, false, 9 boundary numbers, 6 strings} (arrays, objects with distinct keys incl. empty and quoted-quote keys), and every string of length <= 3 over 17 hostile symbols (indicators, escapes \\\" \\\\ \\/ \\n \\t \\u00e9, non-ASCII) as array item, object key and object value; 30 more boundary numbers (subnormals, extremes, integers around 2^63 and 2^64, exponent spellings) at 3 positions; every \\uXXXX escape of the BMP outside the surrogate range in both hex cases plus \\b \\f \\r; serialisation: a choice among {nothing, space, LF, tab, CRLF, LF+indent, tab+space, space+tab} at EVERY token boundary (all vectors with <= d deviations) plus three pretty-printers (indent 2, indent 4, tab); oracle: Yaml::load_from_str gives exactly one document equal to the JSON value (objects -> ordered mappings with string keys, integers that fit i64 -> Integer, other numbers -> Float of the same value, escapes decoded). Non-trivial: every serialisation; distinct: distinct texts.".into();
+    rep.rule = "abstract values: every JSON value of <= s nodes over leaves {null, true, false, 9 boundary numbers, 6 strings} (arrays, objects with distinct keys incl. empty and quoted-quote keys), and every string of length <= 3 over 17 hostile symbols (indicators, escapes \\\" \\\\ \\/ \\n \\t \\u00e9, non-ASCII) as array item, object key and object value; arrays / objects / alternating / sibling-carrying nestings of depth 6 .. 250; 30 more boundary numbers (subnormals, extremes, integers around 2^63 and 2^64, exponent spellings) at 3 positions; every \\uXXXX escape of the BMP outside the surrogate range in both hex cases plus \\b \\f \\r; serialisation: a choice among {nothing, space, LF, tab, CRLF, LF+indent, tab+space, space+tab} at EVERY token boundary (all vectors with <= d deviations) plus three pretty-printers (indent 2, indent 4, tab); oracle: Yaml::load_from_str gives exactly one document equal to the JSON value (objects -> ordered mappings with string keys, integers that fit i64 -> Integer, other numbers -> Float of the same value, escapes decoded). Non-trivial: every serialisation; distinct: distinct texts.".into();
     rep.assumptions = vec!["number values: std's str::parse::<f64> of the JSON number text".into(), "objects have no duplicate keys; nesting stays far below the flow-depth limit; no surrogate \\u escapes".into()];
     let budget = Budget::new(wall_cap(tier));
     rep.mandatory_scopes = 2;
@@ -376,6 +399,27 @@ pub fn check(tier: Tier) -> i32 {
     trans += acc.counters.get("choice_edges").copied().unwrap_or(0);
     rep.acc.merge(acc);
     rep.scope(&format!("hostile strings <= 3 symbols ({}) x 4 positions x <= {ds} deviations", strs.len()), n, done == strs.len() as u64);
+    // deep values (JSON has no depth limit of its own; the statement stops at the parser's flow-depth limit)
+    let depths: Vec<usize> = (6..=20).chain([31, 32, 33, 63, 64, 65, 100, 127, 128, 129, 200, 250]).collect();
+    let jobs: Vec<(usize, usize)> = (0..4).flat_map(|k| depths.iter().map(move |&d| (k, d))).collect();
+    let (acc, done) = par_blocks(jobs.len() as u64, &budget, |b, acc| {
+        let (k, d) = jobs[b as usize];
+        let j = spine(k, d);
+        let mut a = Acc::default();
+        let (c, t) = explore(1, &mut |ch: &mut Ch| eval(&j, ch, &mut a));
+        for (_, (_, v)) in a.viols.iter_mut() {
+            v.case["value"] = json!({"spine": [k, d]});
+        }
+        a.samples.clear();
+        a.count("choice_vectors", c);
+        a.count("choice_edges", t);
+        acc.merge(a);
+    });
+    let n = acc.evals;
+    states += acc.counters.get("choice_vectors").copied().unwrap_or(0);
+    trans += acc.counters.get("choice_edges").copied().unwrap_or(0);
+    rep.acc.merge(acc);
+    rep.scope(&format!("deep values: 4 kinds x depths 6..20, 31..33, 63..65, 100, 127..129, 200, 250 ({}) x <= 1 deviation", jobs.len()), n, done == jobs.len() as u64);
     // number table
     let (acc, done) = par_blocks(NUMS2.len() as u64, &budget, |b, acc| {
         let n = J::Num(NUMS2[b as usize]);
